@@ -76,6 +76,11 @@ func stackVariants(full bool) []struct {
 		{"f(1,p1)", one(F, FILE, 10, Sc(1), Sc(p1))},
 		{"f(1,p2)", one(F, FILE, 10, Sc(1), Sc(p2))},
 		{"f(2,p1)", one(F, FILE, 10, Sc(2), Sc(p1))},
+		// non-pointers where other goroutines have pointers: they must stay apart from pointers at AnyPointer, also
+		// once the bucket key holds '*' there
+		{"f(1,0)", one(F, FILE, 10, Sc(1), Sc(0))},
+		{"f(1,7)", one(F, FILE, 10, Sc(1), Sc(7))},
+		{"f({1,0})", one(F, FILE, 10, Ag(false, Sc(1), Sc(0)))},
 		{"f(1)", one(F, FILE, 10, Sc(1))},
 		{"f({1,p1})", one(F, FILE, 10, Ag(false, Sc(1), Sc(p1)))},
 		{"f({1,p2})", one(F, FILE, 10, Ag(false, Sc(1), Sc(p2)))},
@@ -215,4 +220,51 @@ func MkSnapshot(sigs []*stack.Signature) *stack.Snapshot {
 		s.Goroutines = append(s.Goroutines, &stack.Goroutine{Signature: CloneSig(sg), ID: i + 1, First: i == 0})
 	}
 	return s
+}
+
+func procArg(a *stack.Arg) string {
+	switch {
+	case a.IsAggregate:
+		out := "T{"
+		for i := range a.Fields.Values {
+			if i > 0 {
+				out += ", "
+			}
+			out += procArg(&a.Fields.Values[i])
+		}
+		return out + "}"
+	case a.IsOffsetTooLarge:
+		return "_"
+	case a.Value == 0:
+		return "nil"
+	}
+	return fmt.Sprintf("int(%#x)", a.Value)
+}
+
+func resolveStack(st *stack.Stack, processed bool) {
+	for i := range st.Calls {
+		c := &st.Calls[i]
+		if c.RemoteSrcPath == "" || c.RemoteSrcPath[0] != '/' {
+			continue
+		}
+		c.LocalSrcPath = "/local/checkout" + c.RemoteSrcPath
+		c.RelSrcPath = c.DirSrc
+		c.Location = stack.GoMod
+		if processed && len(c.Args.Values) != 0 {
+			c.Args.Processed = nil
+			for k := range c.Args.Values {
+				c.Args.Processed = append(c.Args.Processed, procArg(&c.Args.Values[k]))
+			}
+		}
+	}
+}
+
+// Resolve fills, as path guessing and source analysis would, the derived fields of every frame of the snapshot:
+// location class, local and relative paths and the typed argument strings. All are functions of the frame's own
+// printed content, so similar frames carry the same derived fields and equal values carry equal typed strings.
+func Resolve(s *stack.Snapshot) {
+	for _, g := range s.Goroutines {
+		resolveStack(&g.Stack, true)
+		resolveStack(&g.CreatedBy, false)
+	}
 }
